@@ -9,7 +9,8 @@ from common import L, ModelRaise, exc_kind
 
 RULE = ("vertex lists classified by an exact integer oracle on their generating 2-D coordinates, margin-separated: "
         "simple polygons (star/comb/zigzag/spiral/regular/convex, 3-40 vertices, both orientations, any start vertex, "
-        "edge separation and corner sines > 1e-3, first corner sine >= 0.05) vs cycles with two vertices swapped so "
+        "edge separation and corner sines > 1e-3, first corner sine >= 0.05; plus dyadic ones whose first corner is an exact "
+        "straight angle) vs cycles with two vertices swapped so "
         "that two non-adjacent edges cross properly (margin 1e-2); (N,2), z=0, z=const and randomly rotated planes "
         "(scale 1e-3..1e3, offset <= 10 diameters); duplicates, < 3 vertices, bad shapes, one vertex lifted off the "
         "plane by > 1 % of the diameter, explicit normals +-n (any length) and tilted >= 0.1 rad; convex position "
@@ -24,8 +25,9 @@ ASSUMPTIONS = [
     "the O(n^2) edge-pair predicate Spec.edgesOK is taken as the meaning of 'simple' (proved over R to be the "
     "existential 'two closed segments share a point' applied to non-adjacent edges, fold-back test for adjacent "
     "ones); the Bentley-Ottmann sweep is tied to it only by the differential runs of this check",
-    "polygons whose FIRST corner is (nearly) degenerate are outside the quantifier: the constructor derives its "
-    "normal from that corner (collinear first three vertices give a nan normal and 'not coplanar')",
+    "polygons whose FIRST corner is nearly (not exactly) degenerate are outside the quantifier: the constructor "
+    "derives its normal from that corner; EXACTLY collinear first three vertices (dyadic coordinates, z = const) are "
+    "generated as valid input and reproduce the known finding Polygon.__init__:rejects-valid:straight-first-corner",
     "planar inputs are planar up to rounding; the constructor's absolute tolerance 1e-8 (np.isclose atol) makes "
     "acceptance of perturbed planes scale dependent - not part of the property's quantifier",
     "Qhull (vertex count of the hull) and rowan.mapping.kabsch (alignment with z) are parameters of the model; their "
